@@ -149,14 +149,19 @@ type State struct {
 	// At start of input, this is false (no previous byte = non-word).
 	isFromWord bool
 
-	// matchAtWordBoundary is pre-computed during determinize:
-	// true if resolving \b assertions in this state's NFA states (when word
-	// boundary IS satisfied) would produce a match. This eliminates the
-	// expensive per-byte checkWordBoundaryMatch (30% CPU on \b patterns).
-	matchAtWordBoundary bool
-
-	// matchAtNonWordBoundary is the same but for when word boundary is NOT satisfied.
-	matchAtNonWordBoundary bool
+	// lookHave is the set of look-behind assertions (LookStartText, LookStartLine)
+	// that hold at the position this state stands for. It is fixed by how the
+	// state was entered (start of text, after '\n', after any other byte) and it
+	// was the look set of the epsilon closure that produced nfaStates.
+	//
+	// determinize needs it when it re-computes the closure once the next byte (the
+	// look-ahead) is known: an assertion that was followed then must be followed
+	// again, otherwise the re-computed closure lists the threads in another
+	// priority order, and an assertion behind \b, \B or $ ("\b^a", "(?m)$^") can
+	// only be decided now. Like isFromWord it is part of the state's identity.
+	// Only kinds that occur in the NFA are recorded (always LookNone for an NFA
+	// without ^ / \A), so it never splits states of look-free patterns.
+	lookHave LookSet
 
 	// nfaStates is the set of NFA states this DFA state represents.
 	// This is used during determinization to compute transitions.
@@ -231,19 +236,10 @@ func (s *State) IsFromWord() bool {
 	return s.isFromWord
 }
 
-// checkWordBoundaryFast checks if consuming byte b would produce a match
-// via word boundary resolution. Uses pre-computed flags — O(1), no allocation.
-// Replaces the expensive checkWordBoundaryMatch (30% CPU) which created Builder
-// and resolved word boundaries per byte.
-func (s *State) checkWordBoundaryFast(b byte) bool {
-	if s.isMatch {
-		return false // Already a match — let normal processing handle it
-	}
-	isBoundary := s.isFromWord != isWordByte(b)
-	if isBoundary {
-		return s.matchAtWordBoundary
-	}
-	return s.matchAtNonWordBoundary
+// LookHave returns the look-behind assertions (start of text / start of line)
+// that hold at the position this state stands for.
+func (s *State) LookHave() LookSet {
+	return s.lookHave
 }
 
 // NFAStates returns the NFA states represented by this DFA state
@@ -331,7 +327,7 @@ func ComputeStateKeyWithWord(nfaStates []nfa.StateID, isFromWord bool) StateKey 
 // not be used to identify DFA states during determinization: see ComputeOrderedStateKey.
 func ComputeStateKeyWithWordAndMatch(nfaStates []nfa.StateID, isFromWord bool, isMatch bool) StateKey {
 	if len(nfaStates) == 0 {
-		return hashStateKey(nil, isFromWord, isMatch)
+		return hashStateKey(nil, isFromWord, isMatch, LookNone)
 	}
 
 	// Sort NFA states for canonical ordering
@@ -340,7 +336,7 @@ func ComputeStateKeyWithWordAndMatch(nfaStates []nfa.StateID, isFromWord bool, i
 	copy(sorted, nfaStates)
 	sortStateIDs(sorted)
 
-	return hashStateKey(sorted, isFromWord, isMatch)
+	return hashStateKey(sorted, isFromWord, isMatch, LookNone)
 }
 
 // ComputeOrderedStateKey computes the cache key of a DFA state: a hash of the NFA
@@ -355,26 +351,19 @@ func ComputeStateKeyWithWordAndMatch(nfaStates []nfa.StateID, isFromWord bool, i
 // the exact sequence of NFA state IDs for the same reason). Keying on the sorted
 // set made the first ordering that reached the cache win for all later orderings.
 func ComputeOrderedStateKey(nfaStates []nfa.StateID, isFromWord bool, isMatch bool) StateKey {
-	return hashStateKey(nfaStates, isFromWord, isMatch)
+	return hashStateKey(nfaStates, isFromWord, isMatch, LookNone)
 }
 
-// hashStateKey hashes the NFA states in the given order with the state flags (FNV-1a).
-func hashStateKey(nfaStates []nfa.StateID, isFromWord bool, isMatch bool) StateKey {
-	if len(nfaStates) == 0 {
-		// Encode (isFromWord, isMatch) into 2 bits for empty states
-		var key StateKey
-		if isFromWord {
-			key |= 1
-		}
-		if isMatch {
-			key |= 2
-		}
-		return key
-	}
+// computeStateKey is ComputeOrderedStateKey for a state that also carries
+// look-behind context (State.lookHave): two states with the same threads but a
+// different context behave differently as soon as an assertion that depends on
+// it is reached through \b, \B or $, so they must not share a cache entry.
+func computeStateKey(nfaStates []nfa.StateID, isFromWord bool, isMatch bool, lookHave LookSet) StateKey {
+	return hashStateKey(nfaStates, isFromWord, isMatch, lookHave)
+}
 
-	h := fnv.New64a()
-
-	// Include isFromWord and isMatch in the hash FIRST to distinguish states
+// stateKeyFlags packs the non-thread part of a state's identity into one byte.
+func stateKeyFlags(isFromWord bool, isMatch bool, lookHave LookSet) byte {
 	var flags byte
 	if isFromWord {
 		flags |= 1
@@ -382,6 +371,26 @@ func hashStateKey(nfaStates []nfa.StateID, isFromWord bool, isMatch bool) StateK
 	if isMatch {
 		flags |= 2
 	}
+	if lookHave&LookStartText != 0 {
+		flags |= 4
+	}
+	if lookHave&LookStartLine != 0 {
+		flags |= 8
+	}
+	return flags
+}
+
+// hashStateKey hashes the NFA states in the given order with the state flags (FNV-1a).
+func hashStateKey(nfaStates []nfa.StateID, isFromWord bool, isMatch bool, lookHave LookSet) StateKey {
+	flags := stateKeyFlags(isFromWord, isMatch, lookHave)
+	if len(nfaStates) == 0 {
+		// Encode the flags into the low bits for empty states
+		return StateKey(flags)
+	}
+
+	h := fnv.New64a()
+
+	// Include the flags in the hash FIRST to distinguish states
 	_, _ = h.Write([]byte{flags})
 
 	for _, sid := range nfaStates {
